@@ -110,6 +110,7 @@ func runC15(c *Ctx) {
 	ruleDefer(c, "R-DEFER", mods)
 	c15StagedUntilFlush(c)
 	c15PutAllGiven(c)
+	c09CtxErrRecorded(c)
 	c11ArchiveLastWins(c)
 
 	// (2) R-ERRUSE
